@@ -177,3 +177,78 @@ def solver_unit(sc, case, per_path, tier, K=None, tag=''):
         except Unsupported as u:
             res['obligations'].append(core.Obl(base + '/path%d/extraction' % i, 'open', 'extraction', 0.0, detail='extraction: %s' % u))
     return res
+
+
+# ------------------------------------------------------------------------------------------------ translation validation of function-level extractions
+TV_NATIVE = r"""
+import json, io, contextlib, importlib, warnings
+import numpy as np
+warnings.simplefilter('ignore')
+items = %(items)r
+out = []
+def flat(v):
+    if isinstance(v, (tuple, list)): return [q for x in v for q in flat(x)]
+    a = np.asarray(v)
+    if a.dtype.kind in 'fiub': return [float(q) for q in a.ravel()]
+    return [None]
+for it in items:
+    try:
+        m = importlib.import_module(it['module'])
+        for k, val in (it.get('globals') or {}).items(): setattr(m, k, val)
+        with contextlib.redirect_stdout(io.StringIO()):
+            if it.get('cls'):
+                C = getattr(m, it['cls'])
+                o = C(**it['ctor']) if it.get('ctor') is not None else object.__new__(C)
+                for k, val in (it.get('attrs') or {}).items(): setattr(o, k, val)
+                r = getattr(o, it['name'])(*it['args'])
+            else:
+                r = getattr(m, it['name'])(*it['args'])
+        out.append({'ok': True, 'values': flat(r)})
+    except Exception as e:
+        out.append({'ok': False, 'error': type(e).__name__ + ': ' + str(e)[:100]})
+print(json.dumps({'reproduced': False, 'results': out}))
+"""
+
+
+def tv_functions(items, expected, rtol=1e-9):
+    """items: native call descriptions (see TV_NATIVE); expected: list of lists of floats (None = not compared) computed from the extracted expressions.
+    Returns (points_compared, mismatches[list of str])."""
+    from . import native
+    r_ = native.run_script(TV_NATIVE % dict(items=items), timeout=600)
+    if r_.get('result') is None: return 0, ['translation validation did not run: ' + (r_.get('stderr_tail') or '')[-200:]]
+    mism = []; n = 0
+    for it, ex, got in zip(items, expected, r_['result']['results']):
+        tag = '%s.%s%s' % (it.get('cls') or it['module'].split('.')[-1], it['name'], tuple(it['args']))
+        if not got['ok']: mism.append('%s: real call raised %s' % (tag, got['error'])); continue
+        vals = got['values']
+        if len(vals) < len(ex): mism.append('%s: real call returned %d values, extraction %d' % (tag, len(vals), len(ex))); continue
+        n += 1
+        for i, (a, b) in enumerate(zip(ex, vals)):
+            if a is None or b is None: continue
+            if abs(a - b) > rtol * max(abs(a), abs(b)) + 1e-300: mism.append('%s: value %d extracted %.12g real %.12g' % (tag, i, a, b)); break
+    return n, mism
+
+
+def expected_from_paths(paths, pt, pick=None, hyps=()):
+    """values of the path taken at the numeric point pt ({symbol: number}); paths: list of (values, path condition) or sx.Path objects"""
+    from . import alg
+    for p in paths:
+        vals, pc = (p.value, p.pc) if hasattr(p, 'pc') else (p[0], p[1])
+        try:
+            if not all(alg.eval_cond(c, pt) for c in pc): continue
+        except Exception:
+            continue
+        vals = pick(vals) if pick else vals
+        out = []
+        for q in (vals.items if hasattr(vals, 'items') and not isinstance(vals, dict) else (vals if isinstance(vals, (list, tuple)) else [vals])):
+            try:
+                z = alg.numeric(sp.sympify(q), pt, 20); out.append(float(z) if z.is_real else None)
+            except Exception:
+                out.append(None)
+        return out
+    return None
+
+
+def tv_report(res, nfun, npts, mism):
+    res['tv'] = {'functions': nfun, 'points': npts, 'mismatches': len(mism)}
+    for m in mism[:5]: res['engine_errors'].append('translation validation: ' + m)
